@@ -1,5 +1,7 @@
 import LlgoVerif.Util
 import LlgoVerif.Model.PyGuard
+import LlgoVerif.Model.PySyms
+import LlgoVerif.Model.PyCache
 /-! Line-protocol driver for C19 (model: LlgoVerif/Model/PyGuard.lean). One request per line, one answer per line.
 
 * `guard PROG IMP PRE ORDER CALLS` — run the guard state machine.
@@ -12,6 +14,16 @@ import LlgoVerif.Model.PyGuard
           `L<p>.<m>.<n>` symbol load, `C<p>.<m>.<n>` call, `V<p>.<m>.<n>` variable read) or `err …`
 * `order PROG MAIN` — order of the `init` bodies for llgo's guarded depth-first initialiser
 * `check PROG IMP ORDER CALLS` — the decidable hypotheses of `import_once_before_use`: `1`/`0`
+* `loadsyms NAMES` — NAMES = `-` or comma-separated symbol-variable names (`__llgo_py.os.path.join,…`):
+    the `llgoLoadPyModSyms` calls `Package.pyLoadModSyms` emits, in order: `ok MODVAR:attr=var,attr=var;MODVAR:…`
+    (`ok .` = none), or `panic`
+* `compile BODIES ROOTS` — BODIES = bodies separated by `;`, each `refs|spawns` (refs: `-` or names, spawns: `-` or
+    body numbers); ROOTS = `-` or body numbers: the loads `NewPackageEx` leaves in `init` (same format), `nofuel`
+* `cache HISTORY` — HISTORY = builds separated by `/`, each build = packages separated by `;`, each package
+    `id,kind,isMain,fp,needRt,needPy,nlink` (kind `o` ordinary, `b` binding, `l` link:, `d` declarations only;
+    nlink = number of link arguments): starting from an empty cache, per build
+    `rt=<0/1> py=<0/1> hits=<id…> meta=<id:linkargs.rt.py | id:->…>` (meta: the metadata section stored for each
+    non-main package of the build), builds joined by ` / `
 * `call NPARAMS VARIADIC NARGS` — which C call `pyCall` emits for arguments 0…NARGS-1 and what the callee receives
 * `seq N` — slots of `py.Tuple`/`py.List` built from arguments 0…N-1
 * `val TOKENS…` — canonical dump of the Python object a Go value becomes
@@ -142,8 +154,67 @@ where
       let (vs, r2) ← parseSeq fuel n r1
       pure (v :: vs, r2)
 
+/-! symbol loads, compile rounds, build cache -/
+
+def showCalls (cs : List LoadCall) : String :=
+  if cs.isEmpty then "." else
+  ";".intercalate (cs.map fun c =>
+    String.ofList c.modVar ++ ":" ++ ",".intercalate (c.pairs.map fun p => String.ofList p.1 ++ "=" ++ String.ofList p.2))
+
+def parseNames (s : String) : List Name := (splitList s ',').map String.toList
+
+def parseBody (s : String) : Option Body :=
+  match s.splitOn "|" with
+  | [r, sp] => (parseNats sp).map fun spawns => { pyRefs := parseNames r, spawns }
+  | _ => none
+
+def parseBKind (s : String) : Option BKind :=
+  match s with
+  | "o" => some .ordinary | "b" => some .binding | "l" => some .linkExtern | "d" => some .declOnly | _ => none
+
+def parseBPkg (s : String) : Option BPkg :=
+  match s.splitOn "," with
+  | [id, k, m, fp, rt, py, nl] => do
+    let id ← id.toNat?; let kind ← parseBKind k; let fp ← fp.toNat?; let nl ← nl.toNat?
+    pure { id, kind, isMain := m = "1", fp, needRt := rt = "1", needPy := py = "1",
+           extLinkArgs := (List.range nl).map (· + 1000 * id) }
+  | _ => none
+
+def b01 (b : Bool) : String := if b then "1" else "0"
+
+def showMeta (c : Cache) (k : BPkg) : String :=
+  match c.lookup (k.id, k.fp) with
+  | none => s!"{k.id}:none"
+  | some none => s!"{k.id}:-"
+  | some (some m) => s!"{k.id}:{m.linkArgs.length}.{b01 m.needRt}.{b01 m.needPyInit}"
+
+def runHistory (c : Cache) : List (List BPkg) → List String
+  | [] => []
+  | p :: ps =>
+    let r := buildAll c p
+    let e := linkMain r.2
+    let hits := (p.zip r.2).filter (fun ka => ka.2.cacheHit) |>.map (fun ka => toString ka.1.id)
+    let metas := (p.filter fun k => !k.isMain && k.kind != .declOnly).map (showMeta r.1)
+    s!"rt={b01 e.rtInit} py={b01 e.pyInit} hits={",".intercalate hits} meta={",".intercalate metas}" :: runHistory r.1 ps
+
 def handle (line : String) : String :=
   match fields line with
+  | ["loadsyms", names] =>
+    match afterInit (parseNames names) with
+    | some cs => "ok " ++ showCalls cs
+    | none => "panic"
+  | ["compile", bodies, roots] =>
+    match (bodies.splitOn ";").mapM parseBody, parseNats roots with
+    | some bs, some roots =>
+      match newPackageLoads (fun i => bs.getD i {}) roots (bs.length + 2) with
+      | none => "nofuel"
+      | some none => "panic"
+      | some (some cs) => "ok " ++ showCalls cs
+    | _, _ => "bad-op"
+  | ["cache", hist] =>
+    match (hist.splitOn "/").mapM (fun b => (b.splitOn ";").mapM parseBPkg) with
+    | some h => "ok " ++ " / ".intercalate (runHistory [] h)
+    | none => "bad-op"
   | ["guard", prog, imp, pre, order, calls] =>
     match parseProg prog, parseImp imp, parseNats pre, parseNats order, parseCalls calls with
     | some P, some imp, some pre, some order, some calls =>
